@@ -15,6 +15,11 @@ func init() {
 		Rule: "honest writer W and receiver R sharing 1-2 databases, and a hostile peer that is present on the database topics and on the pairwise direct channel with R; W writes, real announcements are captured from the wire; then 3-10 (thorough 3-24) hostile payloads, each from one generator class {random bytes, JSON with heads null / [] / [null] / ill-typed / empty objects, a real head with one of identity, clock, hash, key, sig, next, id, payload removed or nulled, byte flip / delete / splice / truncate / duplicate of a captured real message, huge JSON nesting, wrong address field} sent on the database topic or on the direct channel; after each payload: the worker process is alive, every entry in R's logs is one an honest writer wrote and R's views equal the replay of its logs; finally W writes to every database and each new entry must reach R within 90 virtual seconds; non-trivial = >=3 payloads from >=3 classes over both routes"})
 }
 
+func init() {
+	Register(&Scenario{Prop: "C12", Name: "directchannel-frames", Run: func(k *K) { scenDirect(k, "C12", true) }, Weight: 1,
+		Rule: "the raw-stream route of the property: two real directchannel adapters over the stub libp2p host and a hostile third peer; 12-48 frames, most of them hostile or broken (length prefix 0 / larger than the body / 4 MiB+1 / 2^32 / 2^63 / 2^64-1 / unterminated varint / empty stream; honest frames reset or truncated mid-body by the kernel), chunked by the kernel, followed by well-formed frames; oracle: the process survives, broken frames produce no event, every complete frame within the limit sent afterwards is delivered once with the right peer; non-trivial = >=1 complete frame after >=1 broken one"})
+}
+
 func scenC12(k *K) {
 	adv := k.NewAdversary()
 	ndb := k.C.Range(1, 2)
